@@ -660,6 +660,30 @@ func (x *g) linkStmt() string {
 	return x.pick(plainNames) + ".link: " + x.pick([]string{"layers.l1", "layers.x", "scenarios.s1", "steps.l1", "_.layers.l2", "_", "_._", "layers.l1.layers.x", "https://d2lang.com", "layers.nosuch", "\"layers.l1\"", "root.layers.l1"})
 }
 
+// a class / sql_table object whose shape is set first, then children, nested scopes and edges with `_` references
+// declared under it (compileClass / compileSQLTable drop the children map before the edges are compiled)
+func (x *g) tableScope() string {
+	x.f("table-scope")
+	n := x.pick([]string{"d", "t", "A"})
+	shape := x.pick([]string{"class", "sql_table"})
+	var b strings.Builder
+	if x.chance(0.2) {
+		b.WriteString("shape: " + shape + "\n")
+	} else {
+		b.WriteString(n + ": {shape: " + shape + "; f0; f1: int}\n")
+	}
+	inner := x.pick([]string{"_.A.B <-> b", "_.z.y -> b", "a -> _.q", "_._.x -> y", "f0 -> f1", "c.d", "_.f0 -> f1", "x: {_.f1 -> _._.A}"})
+	switch x.r.Intn(3) {
+	case 0:
+		b.WriteString(n + ": {c: {" + inner + "}}")
+	case 1:
+		b.WriteString(n + ".c: {\n" + inner + "\n}")
+	default:
+		b.WriteString(n + ": {\n" + inner + "\n" + x.stmt() + "\n}")
+	}
+	return b.String()
+}
+
 func (x *g) decl() string {
 	p := x.path()
 	if x.o.Valid {
@@ -731,11 +755,16 @@ func (x *g) stmt() string {
 			}
 			x.f("spread:substitution")
 			return "...${" + x.pick(x.vars) + "}"
-		case k < 98:
+		case k < 97:
 			if x.o.Render {
 				continue
 			}
 			return x.linkStmt()
+		case k < 98:
+			if x.o.Render || x.depth > 1 {
+				continue
+			}
+			return x.tableScope()
 		default:
 			if x.o.Valid {
 				continue
